@@ -370,6 +370,10 @@ impl Mapper<Size1GiB> for RecursivePageTable<'_> {
         if p3[page.p3_index()].is_unused() {
             return Err(FlagUpdateError::PageNotMapped);
         }
+        // An entry that points to a level 2 table is not a 1GiB mapping.
+        if !p3[page.p3_index()].flags().contains(Flags::HUGE_PAGE) {
+            return Err(FlagUpdateError::PageNotMapped);
+        }
         p3[page.p3_index()].set_flags(flags | Flags::HUGE_PAGE);
 
         Ok(MapperFlush::new(page))
@@ -419,6 +423,10 @@ impl Mapper<Size1GiB> for RecursivePageTable<'_> {
         let p3_entry = &p3[page.p3_index()];
 
         if p3_entry.is_unused() {
+            return Err(TranslateError::PageNotMapped);
+        }
+        // An entry that points to a level 2 table is not a 1GiB mapping.
+        if !p3_entry.flags().contains(PageTableFlags::HUGE_PAGE) {
             return Err(TranslateError::PageNotMapped);
         }
 
@@ -504,10 +512,17 @@ impl Mapper<Size2MiB> for RecursivePageTable<'_> {
         if p3[page.p3_index()].is_unused() {
             return Err(FlagUpdateError::PageNotMapped);
         }
+        if p3[page.p3_index()].flags().contains(Flags::HUGE_PAGE) {
+            return Err(FlagUpdateError::ParentEntryHugePage);
+        }
 
         let p2 = unsafe { &mut *(p2_ptr(page, self.recursive_index)) };
 
         if p2[page.p2_index()].is_unused() {
+            return Err(FlagUpdateError::PageNotMapped);
+        }
+        // An entry that points to a level 1 table is not a 2MiB mapping.
+        if !p2[page.p2_index()].flags().contains(Flags::HUGE_PAGE) {
             return Err(FlagUpdateError::PageNotMapped);
         }
 
@@ -550,6 +565,10 @@ impl Mapper<Size2MiB> for RecursivePageTable<'_> {
         if p3_entry.is_unused() {
             return Err(FlagUpdateError::PageNotMapped);
         }
+        // A 1GiB mapping is not a parent table entry.
+        if p3_entry.flags().contains(PageTableFlags::HUGE_PAGE) {
+            return Err(FlagUpdateError::ParentEntryHugePage);
+        }
 
         p3_entry.set_flags(flags);
 
@@ -577,11 +596,18 @@ impl Mapper<Size2MiB> for RecursivePageTable<'_> {
         if p3_entry.is_unused() {
             return Err(TranslateError::PageNotMapped);
         }
+        if p3_entry.flags().contains(PageTableFlags::HUGE_PAGE) {
+            return Err(TranslateError::ParentEntryHugePage);
+        }
 
         let p2 = unsafe { &*(p2_ptr(page, self.recursive_index)) };
         let p2_entry = &p2[page.p2_index()];
 
         if p2_entry.is_unused() {
+            return Err(TranslateError::PageNotMapped);
+        }
+        // An entry that points to a level 1 table is not a 2MiB mapping.
+        if !p2_entry.flags().contains(PageTableFlags::HUGE_PAGE) {
             return Err(TranslateError::PageNotMapped);
         }
 
@@ -672,11 +698,23 @@ impl Mapper<Size4KiB> for RecursivePageTable<'_> {
         if p3[page.p3_index()].is_unused() {
             return Err(FlagUpdateError::PageNotMapped);
         }
+        if p3[page.p3_index()]
+            .flags()
+            .contains(PageTableFlags::HUGE_PAGE)
+        {
+            return Err(FlagUpdateError::ParentEntryHugePage);
+        }
 
         let p2 = unsafe { &mut *(p2_ptr(page, self.recursive_index)) };
 
         if p2[page.p2_index()].is_unused() {
             return Err(FlagUpdateError::PageNotMapped);
+        }
+        if p2[page.p2_index()]
+            .flags()
+            .contains(PageTableFlags::HUGE_PAGE)
+        {
+            return Err(FlagUpdateError::ParentEntryHugePage);
         }
 
         let p1 = unsafe { &mut *(p1_ptr(page, self.recursive_index)) };
@@ -724,6 +762,10 @@ impl Mapper<Size4KiB> for RecursivePageTable<'_> {
         if p3_entry.is_unused() {
             return Err(FlagUpdateError::PageNotMapped);
         }
+        // A 1GiB mapping is not a parent table entry.
+        if p3_entry.flags().contains(PageTableFlags::HUGE_PAGE) {
+            return Err(FlagUpdateError::ParentEntryHugePage);
+        }
 
         p3_entry.set_flags(flags);
 
@@ -746,12 +788,22 @@ impl Mapper<Size4KiB> for RecursivePageTable<'_> {
         if p3[page.p3_index()].is_unused() {
             return Err(FlagUpdateError::PageNotMapped);
         }
+        if p3[page.p3_index()]
+            .flags()
+            .contains(PageTableFlags::HUGE_PAGE)
+        {
+            return Err(FlagUpdateError::ParentEntryHugePage);
+        }
 
         let p2 = unsafe { &mut *(p2_ptr(page, self.recursive_index)) };
         let p2_entry = &mut p2[page.p2_index()];
 
         if p2_entry.is_unused() {
             return Err(FlagUpdateError::PageNotMapped);
+        }
+        // A 2MiB mapping is not a parent table entry.
+        if p2_entry.flags().contains(PageTableFlags::HUGE_PAGE) {
+            return Err(FlagUpdateError::ParentEntryHugePage);
         }
 
         p2_entry.set_flags(flags);
@@ -772,12 +824,18 @@ impl Mapper<Size4KiB> for RecursivePageTable<'_> {
         if p3_entry.is_unused() {
             return Err(TranslateError::PageNotMapped);
         }
+        if p3_entry.flags().contains(PageTableFlags::HUGE_PAGE) {
+            return Err(TranslateError::ParentEntryHugePage);
+        }
 
         let p2 = unsafe { &*(p2_ptr(page, self.recursive_index)) };
         let p2_entry = &p2[page.p2_index()];
 
         if p2_entry.is_unused() {
             return Err(TranslateError::PageNotMapped);
+        }
+        if p2_entry.flags().contains(PageTableFlags::HUGE_PAGE) {
+            return Err(TranslateError::ParentEntryHugePage);
         }
 
         let p1 = unsafe { &*(p1_ptr(page, self.recursive_index)) };
